@@ -341,7 +341,7 @@ CHECKS["C12"] = {
                  "oracle: every branch life is re-run ALONE on the real engine and the switch output sampled every cycle must equal it",
     "design_ref": "DESIGN.md 2/C12",
     "parts": [{"name": "switch", "exe": "c12_switch", "sources": ["c12_switch.cpp"], "shards": {"quick": 16, "thorough": 256}}],
-    "rule": "per cycle: key tick in {-,1,2,8,9} (8 and 9 match no case) x input tick or not, all 5^T x 2^T histories; tables: {1: stateful counter, "
+    "rule": "table o: both keys select a terminal that keeps its running total in its OWN OUTPUT (reads it back before writing) - a fresh instance starts from nothing (known finding: the shared scalar switch output is not reset, the new branch continues from the previous branch's value; only that exact form is listed). per cycle: key tick in {-,1,2,8,9} (8 and 9 match no case) x input tick or not, all 5^T x 2^T histories; tables: {1: stateful counter, "
             "2: doubler, default: counter after doubler}, {1: self-scheduling debounce (+2), 2: counter}, {1: key-consuming, 2: counter}, TSS-output "
             "table {1: accumulate into the set, 2: single-element set}; each with/without default branch and with/without reload(). Oracle: lives "
             "start on a key CHANGE (any key tick under reload; two different unmatched keys are two lives of the default branch); a life's branch "
